@@ -391,9 +391,6 @@ func runC18(res *lib.Result, tier string, seed int64, args []string) error {
 				case dotted:
 					res.HitKnown("C18-K1", "a file whose name has a second dot (mod.test.lua) is indexed under the part before its FIRST dot: require(\"mod\") loads it (no type-6 diagnostic) while go-to-definition on the string, which looks for mod.lua, does not find it", caseText+"\n"+strings.Join(sp, "\n"))
 					res.Dist("hit.C18-K1")
-				case len(A) > 1 || len(D) > 1:
-					res.HitKnown("C18-K2", "several files match a module string with the same best score (same depth, same common prefix with the requiring file): GetBestMatchReferFile returns whichever the map iteration yields first, so the analysis and go-to-definition can pick different files", caseText+"\n"+strings.Join(sp, "\n"))
-					res.Dist("hit.C18-K2")
 				case so:
 					res.HitKnown("C18-K3", "a native module name.so at the workspace root shadows name.lua for the analysis (nothing is loaded) while go-to-definition still opens name.lua", caseText+"\n"+strings.Join(sp, "\n"))
 					res.Dist("hit.C18-K3")
